@@ -53,7 +53,9 @@ SPEC = dict(
                "getNumNodesWithEdges(), and the placement promised by the policy (edge cut: edge at its source's master; hybrid "
                "cut: per source all edges at its master or all at their destinations' masters; Cartesian cut: host in the grid "
                "row of the source's master and the grid column of the destination's master; read-assignment policies: masters "
-               "are contiguous blocks in host order). Held on the cases observed, not for all graphs/schedules.",
+               "are contiguous blocks in host order) and the structure that Gluon derives from the flags: a host whose graph says "
+               "!is_vertex_cut() has no mirror with out-edges (in-edges when isTransposed()), and with a non-zero cartesianGrid() every "
+               "mirror end point of a local edge lies in the grid row/column Gluon talks to. Held on the cases observed, not for all graphs/schedules.",
     level_note="Trusts the reference .gr codec and generator (/verif/ref/gr_codec.h), MPI collectives on a duplicated "
                "communicator, and that the public accessors report the state the applications see. The peer's master lists "
                "are built by Gluon from the mirror lists (C18); here the partition-level fact is checked: every entry of A's "
@@ -73,7 +75,8 @@ SPEC = dict(
              "cases_nodes_lt_hosts": 2, "sources_over_1000_edges": 5, "sources_placed_at_destination_masters": 1,
              "cases_transposed_in_memory": 20, "cases_symmetric": 15, "cases_input_csc": 20, "cases_edge_data": 30,
              "cases_async": 30, "cases_masters_file": 3, "cases_defaults": 15, "cases_multi_host": 150,
-             "cases_two_threads": 40, "cases_mining": 6},
+             "cases_two_threads": 40, "cases_mining": 6, "edges_under_edge_cut_claim": 20000,
+             "hosts_claiming_edge_cut": 100, "hosts_claiming_vertex_cut": 100, "mirror_endpoints_under_grid_claim": 1000},
     assumptions=[
         "Input domain (from BufferedGraph.h/OfflineGraph.h/CuSPPartitioner.h and the dist apps): version-1 .gr files (BufferedGraph "
         "documents version 1 only), at least one node, node ids < 2^32, edge data void or uint32_t with a file whose edge data size "
@@ -92,6 +95,12 @@ SPEC = dict(
         "mirror source is a kept input edge; node-level checks as for the other policies.",
         "The masters block file format is undocumented (hidden -mastersFile option): lines 'Host h gets masters from nodes L to "
         "node R' (token 6 = first node, token 9 = last node, inclusive), non-empty blocks, as readersFromFile parses them.",
-        "isTransposed() is recorded, not judged. A wall-clock watchdog (hung rank) makes a case inconclusive, never a violation.",
+        "The flags is_vertex_cut(), isTransposed() and cartesianGrid() are judged only through what their consumer assumes "
+        "(GluonSubstrate, constructed by DistBench/Start.h with exactly these values; GluonSubstrate.h sync_*_to_* and "
+        "isNotCommPartnerCVC): !is_vertex_cut() => no mirror is the source (not transposed) / the destination (transposed) of a "
+        "local edge; a non-zero grid => rows*cols == hosts and a mirror that is a local source (destination) sits in the grid "
+        "row (column) of its master's host, rows and columns swapped when isTransposed(). Nothing is demanded of a partition "
+        "that claims to be a vertex cut, and MiningGraph (consumer: GluonEdgeSubstrate) is exempt.",
+        "A wall-clock watchdog (hung rank) makes a case inconclusive, never a violation.",
     ],
 )
